@@ -185,6 +185,54 @@ def run(ctx, report: Report) -> None:
                     r1.instance({'function': f'{mn}.{q}', 'mutable_default': unparse(d)}, key=f'{mn}.{q}|default')
                     r1.violation(f'{mn}.{q} mutable default {unparse(d)}', mod.where(d),
                                  f'{mn}.{q} has the mutable default `{unparse(d)}`, one object shared by all calls and threads')
+    # class-level mutable containers reached through `self`: one object shared by every instance (and thread)
+    for mn, mod in src.mods.items():
+        for cq, cnode in mod.classes.items():
+            if '.' in cq:
+                continue
+            shared_attrs = {}
+            for st in cnode.body:
+                if isinstance(st, (ast.Assign, ast.AnnAssign)) and st.value is not None:
+                    tgt = st.targets[0] if isinstance(st, ast.Assign) else st.target
+                    v = st.value
+                    mutable = isinstance(v, (ast.List, ast.Dict, ast.Set, ast.ListComp, ast.DictComp, ast.SetComp)) or (
+                        isinstance(v, ast.Call) and call_name(v).split('.')[-1] in ('list', 'dict', 'set', 'defaultdict', 'OrderedDict',
+                                                                                     'deque', 'Counter', 'bytearray'))
+                    if mutable and isinstance(tgt, ast.Name):
+                        shared_attrs[tgt.id] = st
+            if not shared_attrs:
+                continue
+            users = [f'{mn}.{cq}'] + src.subclasses(f'{mn}.{cq}')
+            for u in users:
+                um, _, ucn = u.partition('.')
+                umod = src.mods[um]
+                init = umod.functions.get(f'{ucn}.__init__')
+                shadowed = set()
+                if init is not None:
+                    for n in walk_no_nested(init):
+                        if isinstance(n, ast.Assign):
+                            for t in n.targets:
+                                if isinstance(t, ast.Attribute) and isinstance(t.value, ast.Name) and t.value.id == 'self':
+                                    shadowed.add(t.attr)
+                for q, fn in umod.functions.items():
+                    if not q.startswith(ucn + '.') or q.count('.') != 1:
+                        continue
+                    for n in walk_no_nested(fn):
+                        hit = None
+                        if isinstance(n, ast.Call) and isinstance(n.func, ast.Attribute) and n.func.attr in MUTATORS | {'add', 'discard'} \
+                                and isinstance(n.func.value, ast.Attribute) and isinstance(n.func.value.value, ast.Name) \
+                                and n.func.value.value.id in ('self', 'cls') and n.func.value.attr in shared_attrs \
+                                and n.func.value.attr not in shadowed:
+                            hit = unparse(n.func)
+                        if isinstance(n, (ast.Subscript,)) and isinstance(n.ctx, (ast.Store, ast.Del)) and isinstance(n.value, ast.Attribute) \
+                                and isinstance(n.value.value, ast.Name) and n.value.value.id in ('self', 'cls') \
+                                and n.value.attr in shared_attrs and n.value.attr not in shadowed:
+                            hit = unparse(n)
+                        if hit:
+                            r1.instance({'function': f'{um}.{q}', 'writes_class_level_container': hit}, key=f'{um}.{q}|{hit}')
+                            r1.violation(f'{um}.{q} writes {hit}', umod.where(n),
+                                         f'{um}.{q} mutates `{hit}`: the container is created once in the body of class {cq} and is '
+                                         f'shared by every instance and thread (no instance attribute shadows it)')
     r1.instance({'functions_scanned_for_module/class-level writes': sum(len(m.functions) for m in src.mods.values())},
                 key='scan', nontrivial=False)
 
